@@ -3,14 +3,14 @@
 # /tmp/wt_<pid> (demo fails with it / passes without; baseline suite still 393 passed), then apply it to /repo,
 # run the property's quick check, and undo it straight afterwards.  Prints one summary line.
 pid=$1; k=$2; P=$(echo $pid | tr a-z A-Z)
-WT=/tmp/wt_$pid; OUT=/tmp/out_$pid; D=$OUT/mutant$k.diff
+WT=${WT:-/tmp/wt_$pid}; OUT=${OUT:-/tmp/out_$pid}; D=$OUT/mutant$k.diff
 run_demo() { (cd $WT && LD_LIBRARY_PATH=/tmp/icu73 PYTHONPATH=$WT timeout 300 /venv/bin/python $OUT/demo$k.py >/dev/null 2>&1); echo $?; }
 git -C $WT checkout -q -- . ; clean=$(run_demo)
 git -C $WT apply $D || { echo "$P m$k: patch does not apply"; exit 1; }
 mut=$(run_demo)
 base=$(cd $WT && /venv/bin/python -m pytest -q -p no:cacheprovider --continue-on-collection-errors 2>&1 | tail -1)
 # run the check against the scratch worktree with the change applied (VERIF_REPO redirects the harness; /repo untouched)
-out=$(cd /verif && VERIF_REPO=$WT VERIF_EVIDENCE_DIR=/tmp/seed_evidence VERIF_REPLAY_DIR=/tmp/seed_replays timeout 3000 bin/check ${CHECK:-$P} --tier quick 2>&1 | tail -25)
+out=$(cd /verif && VERIF_REPO=$WT VERIF_EVIDENCE_DIR=/tmp/seed_evidence_$pid VERIF_REPLAY_DIR=/tmp/seed_replays_$pid timeout 3000 bin/check ${CHECK:-$P} --tier quick 2>&1 | tail -25)
 rc=$(echo "$out" | grep -c "^VIOLATION property=")
 git -C $WT checkout -q -- .
 echo "$out" | grep -E "rejected:|MACHINERY" | head -4
